@@ -126,8 +126,16 @@ class Spec(Node):
 # ------------------------------------------------------------------ XML rendering
 
 
+_SPELL = [False, 0]  # [vary the spelling?, counter]
+
+
 def _b(v):
-    return "true" if v else "false"
+    """Boolean attribute value.  The generator reads any spelling that is 'true' up to case as true and everything else
+    as false; the explicit rendering (every default spelled out) takes the spellings in turn."""
+    if not _SPELL[0]:
+        return "true" if v else "false"
+    _SPELL[1] += 1
+    return ("true", "True", "TRUE", "tRuE")[_SPELL[1] % 4] if v else ("false", "False", "0", "no")[_SPELL[1] % 4]
 
 
 def _comment(c, ind):
@@ -242,6 +250,14 @@ def render_file(f, explicit=False, extra=()):
 
 
 def render(spec, explicit=False):
+    _SPELL[0], _SPELL[1] = bool(explicit), 0
+    try:
+        return _render(spec, explicit)
+    finally:
+        _SPELL[0] = False
+
+
+def _render(spec, explicit=False):
     """-> {relative_dir: xml_text}"""
     return {path: render_file(f, explicit, spec.raw_extra.get(path, ())) for path, f in spec.files.items()}
 
